@@ -86,7 +86,7 @@ func realCommit(table volTable, postings []jPosting, id uint64, ts, ins int64, p
 			if i := strings.LastIndex(strings.ToLower(q), " on conflict "); i >= 0 {
 				tail = strings.ToLower(strings.Join(strings.Fields(q[i:]), " "))
 			}
-			if tail != "on conflict (ledger, accounts_address, asset) do update set input = accounts_volumes.input + excluded.input, output = accounts_volumes.output + excluded.output returning input, output" {
+			if !additiveUpsert(tail) {
 				return nil, nil, fmt.Errorf("unexpected upsert shape: %s", tail)
 			}
 			cols, tuples, err := parseValues(q)
@@ -184,6 +184,33 @@ func realCommit(table volTable, postings []jPosting, id uint64, ts, ins int64, p
 		out.PreEff = flattenPCV(aux.PreEff)
 	})
 	return out
+}
+
+// additiveUpsert accepts the conflict clause of UpdateVolumes in the forms that mean
+// "add the new row to the stored one" (either operand order), returning input and output.
+func additiveUpsert(tail string) bool {
+	const pre = "on conflict (ledger, accounts_address, asset) do update set "
+	const post = " returning input, output"
+	if !strings.HasPrefix(tail, pre) || !strings.HasSuffix(tail, post) {
+		return false
+	}
+	sets := strings.Split(tail[len(pre):len(tail)-len(post)], ", ")
+	if len(sets) != 2 {
+		return false
+	}
+	ok := map[string]bool{}
+	for _, col := range []string{"input", "output"} {
+		ok[col+" = accounts_volumes."+col+" + excluded."+col] = true
+		ok[col+" = excluded."+col+" + accounts_volumes."+col] = true
+	}
+	seen := map[byte]bool{}
+	for _, st := range sets {
+		if !ok[st] {
+			return false
+		}
+		seen[st[0]] = true
+	}
+	return seen['i'] && seen['o']
 }
 
 func guard(fn func()) (panicked string) {
